@@ -40,6 +40,9 @@ type caseC05 struct {
 	TimeoutNs int64  `json:"timeout_ns"` // http.Client.Timeout (0 = none)
 	BadEvery  uint64 `json:"bad_every"`  // every n-th target cannot be built into a request (0 = never)
 	DryAfter  uint64 `json:"dry_after"`  // the targeter reports ErrNoTargets after this many draws (0 = never)
+	// targets that already carry the two correlation headers (replayed from captured vegeta traffic): numbers in
+	// DEScending order of use — the attack numbers its hits itself, whatever the targets say
+	PresetSeq bool `json:"targets_carry_x_vegeta_seq"`
 }
 
 // timeoutErr is a transport error whose Timeout() is true (dial / TLS / header timeouts look like this).
@@ -131,6 +134,7 @@ func runC05(c *run.Ctx, s *kit.Summary) {
 		if r.Chance(0.5) {
 			cs.BadEvery = uint64(2 + r.Pick(7))
 		}
+		cs.PresetSeq = i%4 == 3
 		if r.Chance(0.3) {
 			cs.DryAfter = cs.Hits - uint64(r.Pick(50))
 		}
@@ -141,6 +145,9 @@ func runC05(c *run.Ctx, s *kit.Summary) {
 				return vegeta.ErrNoTargets
 			}
 			t.Method, t.URL = "GET", "http://verif.invalid/"
+			if cs.PresetSeq {
+				t.Header = http.Header{"X-Vegeta-Seq": []string{strconv.FormatUint(1000000-n%1000, 10)}, "X-Vegeta-Attack": []string{"captured"}}
+			}
 			if cs.BadEvery > 0 && n%cs.BadEvery == 0 {
 				if n%2 == 0 {
 					t.URL = "http://[::1" // url.Parse fails
@@ -151,6 +158,7 @@ func runC05(c *run.Ctx, s *kit.Summary) {
 			return nil
 		})
 		s.Count(fmt.Sprintf("early_return:bad_every=%v,dry=%v", cs.BadEvery > 0, cs.DryAfter > 0))
+		s.Count(fmt.Sprintf("targets_carry_x_vegeta_seq=%v", cs.PresetSeq))
 		t0 := time.Now()
 		var results []*vegeta.Result
 		for res := range atk.Attack(tr, limitPacer{cs.Hits}, 0, "c05") {
